@@ -1,6 +1,138 @@
-/-! Driver entry for property C25 (stub: not implemented yet). -/
-namespace HeartwoodModel.Driver.C25
+import HeartwoodModel.Model.Sync
+import HeartwoodModel.Driver.Util
+/-! Driver entry for C25.
 
-def run (_args : List String) : String := "unimplemented"
+Announcer case: `A <me> <repl> <preferred> <synced> <unsynced> <ops>`
+Fetcher case:   `F <me> <repl> <seeds> <extra> <ops>`
+
+* `repl`: `m<n>` = `ReplicationFactor::must_reach(n)`, `r<lo>-<hi>` = `ReplicationFactor::range(lo, hi)`.
+* sets (`preferred`, `synced`, `unsynced`, `seeds`): strictly ascending naturals, `-` = empty.
+  `extra` (fetcher `with_candidates`): any list of naturals.
+* announcer ops: `s<n>` synced_with, `q` to_sync, `c` can_continue, `t` timed_out.
+* fetcher ops: `n` next_node, `r<k>` ready_to_fetch, `f` next_fetch, `x<k>` fetch_failed,
+  `o<k>` / `e<k>` fetch_complete with a successful / failed result, `z` finish.
+Output: `new:<error>` or `ok` followed by `;<answer>` per op; a terminal op (`t`, `z`, `c` answering
+`NoNodes`) ends the run. -/
+namespace HeartwoodModel.Driver.C25
+open HeartwoodModel.Sync HeartwoodModel.Driver.Util
+
+def insertSorted (x : Nat) : List Nat → List Nat
+  | [] => [x]
+  | y :: ys => if x ≤ y then x :: y :: ys else y :: insertSorted x ys
+
+def sortNats (xs : List Nat) : List Nat := xs.foldr insertSorted []
+
+def showSet (xs : List Nat) : String := showNats (sortNats xs)
+
+def ascending : List Nat → Bool
+  | [] => true
+  | [_] => true
+  | x :: y :: rest => x < y && ascending (y :: rest)
+
+def set? (s : String) : Option (List Nat) :=
+  match nats? s with
+  | some xs => if ascending xs then some xs else none
+  | none => none
+
+def repl? (s : String) : Option Repl :=
+  if s.startsWith "m" then (nat? (s.drop 1).toString).map Repl.mustReach
+  else if s.startsWith "r" then
+    match splitOn (s.drop 1).toString '-' with
+    | [lo, hi] => do
+      let lo ← nat? lo
+      let hi ← nat? hi
+      some (Repl.mkRange lo hi)
+    | _ => none
+  else none
+
+def showAnnOutcome : AnnOutcome → String
+  | .minRepl p s => s!"min:{p}/{s}"
+  | .maxRepl p s => s!"max:{p}/{s}"
+
+def annOps (a : Ann) : List String → List String → Option (List String)
+  | [], acc => some acc.reverse
+  | op :: rest, acc =>
+    if op == "q" then annOps a rest (s!"Q{showSet a.toSyncOut}" :: acc)
+    else if op == "c" then
+      match a.canContinue with
+      | some (.noNodes synced) => some ((s!"N{showSet synced}" :: acc).reverse)
+      | some _ => none
+      | none => annOps a rest ("K" :: acc)
+    else if op == "t" then
+      match a.timedOut with
+      | .success o synced => some ((s!"S{showAnnOutcome o}:{showSet synced}" :: acc).reverse)
+      | .timedOut synced timedOut => some ((s!"T{showSet synced}|{showSet timedOut}" :: acc).reverse)
+      | .noNodes _ => none
+    else if op.startsWith "s" then
+      match nat? (op.drop 1).toString with
+      | some n =>
+        match a.syncedWith n with
+        | (a', .cont p s) => annOps a' rest (s!"C{p}/{s}" :: acc)
+        | (a', .brk o) => annOps a' rest (s!"B{showAnnOutcome o}" :: acc)
+      | none => none
+    else none
+
+def showFetOutcome : FetOutcome → String
+  | .preferredNodes p => s!"pref{p}"
+  | .minReplicas s => s!"min{s}"
+  | .maxReplicas s mn mx => s!"max{s}/{mn}/{mx}"
+
+def showOpt : Option Nat → String
+  | some n => toString n
+  | none => "-"
+
+def fetOps (f : Fet) : List String → List String → Option (List String)
+  | [], acc => some acc.reverse
+  | op :: rest, acc =>
+    if op == "n" then
+      let (f', r) := f.nextNode
+      fetOps f' rest (s!"n{showOpt r}" :: acc)
+    else if op == "f" then
+      let (f', r) := f.nextFetch
+      fetOps f' rest (s!"f{showOpt r}" :: acc)
+    else if op == "z" then
+      match f.finish with
+      | .targetReached o p s => some ((s!"R{showFetOutcome o}:{p}/{s}" :: acc).reverse)
+      | .targetError missing req p s => some ((s!"E{showSet missing}:{req}:{p}/{s}" :: acc).reverse)
+    else
+      match nat? (op.drop 1).toString with
+      | none => none
+      | some k =>
+        if op.startsWith "r" then fetOps (f.readyToFetch k) rest ("r" :: acc)
+        else if op.startsWith "x" then fetOps (f.fetchFailed k) rest ("x" :: acc)
+        else if op.startsWith "o" || op.startsWith "e" then
+          match f.fetchComplete k (op.startsWith "o") with
+          | (f', .cont p s) => fetOps f' rest (s!"C{p}/{s}" :: acc)
+          | (f', .brk o p s) => fetOps f' rest (s!"B{showFetOutcome o}:{p}/{s}" :: acc)
+        else none
+
+def ops? (s : String) : List String := if s == "-" then [] else splitOn s ','
+
+def run (args : List String) : String :=
+  match args with
+  | ["A", me, repl, pref, synced, unsynced, ops] =>
+    match nat? me, repl? repl, set? pref, set? synced, set? unsynced with
+    | some me, some repl, some pref, some synced, some unsynced =>
+      match Ann.new { me, repl, preferred := pref, synced, unsynced } with
+      | .error .noSeeds => "new:noSeeds"
+      | .error (.alreadySynced p s) => s!"new:already:{p}/{s}"
+      | .error .target => "new:target"
+      | .ok a =>
+        match annOps a (ops? ops) [] with
+        | some outs => joinWith ";" ("ok" :: outs)
+        | none => "bad-op"
+    | _, _, _, _, _ => "bad-op"
+  | ["F", me, repl, seeds, extra, ops] =>
+    match nat? me, repl? repl, set? seeds, nats? extra with
+    | some me, some repl, some seeds, some extra =>
+      match Fet.new ((FetCfg.public seeds repl me).withCandidates extra) with
+      | .error .noCandidates => "new:noCandidates"
+      | .error .target => "new:target"
+      | .ok f =>
+        match fetOps f (ops? ops) [] with
+        | some outs => joinWith ";" ("ok" :: outs)
+        | none => "bad-op"
+    | _, _, _, _ => "bad-op"
+  | _ => "bad-op"
 
 end HeartwoodModel.Driver.C25
